@@ -1,9 +1,13 @@
 #!/bin/sh
 # usage: seedtest.sh <seed dir name> <property id>...
 # Applies a seeded mutation to /repo, runs the quick checks, and reverts.
+# The evidence files are saved and restored (evidence must describe the unchanged tree).
 d=/verif/seeded/$1; shift
-git -C /repo apply "$d/patch.diff" || exit 3
+tmp=$(mktemp -d)
+cp -r /verif/evidence "$tmp/evidence"
+git -C /repo apply "$d/patch.diff" || { rm -rf "$tmp"; exit 3; }
 for p in "$@"; do
-  (cd /verif && bin/govc check -property $p -tier quick | grep -v "^property" | cut -c1-220 | head -8; echo "  -> $p exit=$?")
+  (cd /verif && bin/govc check -property $p -tier quick | grep -v "^property" | cut -c1-220 | head -8; echo "  -> $p done")
 done
 git -C /repo checkout -- .
+rm -rf /verif/evidence && cp -r "$tmp/evidence" /verif/evidence && rm -rf "$tmp"
